@@ -98,11 +98,18 @@ def staticMass (E : Env) (seq : List Char) (m : StaticMap) : Rat :=
   (match dictGet m cTermKey with | some ms => sumMods E ms | none => 0) +
   staticResidueMass E seq m
 
+def optInt (E : Env) : Option (List (Int × List Mod)) → Rat
+  | some d => sumInternal E d
+  | none => 0
+
+def optIntervals (E : Env) : Option (List Interval) → Rat
+  | some l => sumIntervals E l
+  | none => 0
+
 /-- everything `mass` adds up before `adjust_mass`, static block excluded -/
 def plainMass (E : Env) (a : Annotation) : Rat :=
   sumRes E a.seq + (if E.ionP then optSum E a.labile else 0) + optSum E a.unknown + optSum E a.nterm +
-    (match a.intervals with | some l => sumIntervals E l | none => 0) +
-    (match a.internal with | some d => sumInternal E d | none => 0) + optSum E a.cterm
+    optIntervals E a.intervals + optInt E a.internal + optSum E a.cterm
 
 /-- `mass(annotation)` without isotope labels -/
 def massFast (E : Env) (a : Annotation) : Except Err Rat :=
@@ -180,7 +187,7 @@ def parseIsotopeMods (known : List Char → Bool) (l : List Mod) : Except Err La
 def relabel1 (c : Comp) (el lab : List Char) : Comp :=
   if compHas c el then
     if el = lab then c
-    else compDel (if compHas c lab then compAdd1 c lab (compGet c el) else c ++ [(lab, compGet c el)]) el
+    else compDel (compAdd1 c lab (compGet c el)) el   -- `c[lab] += c[el]` or `c[lab] = c[el]`, then `del c[el]`
   else c
 
 def relabel (c : Comp) (m : LabelMap) : Comp := m.foldl (fun acc p => relabel1 acc p.1 p.2) c
